@@ -4,7 +4,7 @@ from __future__ import annotations
 import itertools
 
 from ..core import AnalysisError, Finding
-from ..interp import Interp, Obj, PyRaise, run_guarded, AnalysisAbort, ItemList, Opaque
+from ..interp import Interp, Obj, PyRaise, PyModel, run_guarded, AnalysisAbort, ItemList, Opaque
 from .. import npmodel as NP
 from ..npmodel import AArr, SymScalar, t_add, t_neg, t_sum, t_in, vkey
 from ..world import World
@@ -528,6 +528,62 @@ def history_case(prog, rep, fails, gi, graph, second):
         note(fails, rid, f"MFASystem.{what}", inp, msg)
 
 
+class EpsInfo(PyModel):
+    """np.finfo(...): only the machine epsilon is used - an infinitesimal positive number in the exact array domain"""
+    def __init__(self):
+        from ..symnum import Rat
+        self.eps = Rat.sym("eps", "pos")
+
+
+def verbose_cases(prog, rep, fails):
+    """check_flows with concrete small systems on the exact array domain: items may be integers (years) or strings; with and without
+    verbose=True the flagged flow must be reported - by a warning, or by ValueError when raise_error=True - and never by another error"""
+    from ..syminterp import SymInterp
+    from ..symnum import SArr, rat
+    rid = "C02.check-flows"
+    for items_kind in ("strings", "integers", "integers+strings"):
+        for verbose in (False, True):
+            for raise_error in (False, True):
+                it = SymInterp(prog)
+                it.hooks["numpy.finfo"] = lambda *a, **k: EpsInfo()
+                D = prog.cls("Dimension")
+                t_items = [2000, 2001, 2002] if items_kind != "strings" else ["t0", "t1", "t2"]
+                dl = [it.construct(D, [], dict(name="Time", letter="t", items=list(t_items)))]
+                shape = (3,)
+                if items_kind == "integers+strings":
+                    dl.append(it.construct(D, [], dict(name="Aa", letter="a", items=["a0", "a1"])))
+                    shape = (3, 2)
+
+                def dims():
+                    return it.construct(prog.cls("DimensionSet"), [], dict(dim_list=list(dl)))
+                P = prog.cls("Process")
+                procs = {"sysenv": it.construct(P, [], dict(name="sysenv", id=0)), "use": it.construct(P, [], dict(name="use", id=1))}
+                n = shape[0] * (shape[1] if len(shape) > 1 else 1)
+                neg = SArr(shape, [rat(1)] * n)
+                neg.set((1,) + (0,) * (len(shape) - 1), rat(-5))
+                F = prog.cls("Flow")
+                f = it.construct(F, [], dict(dims=dims(), values=neg, name="sysenv => use", from_process=procs["sysenv"], to_process=procs["use"]))
+                g = it.construct(F, [], dict(dims=dims(), values=SArr(shape, [rat(2)] * n), name="use => sysenv", from_process=procs["use"], to_process=procs["sysenv"]))
+                mfa = it.construct(prog.cls("MFASystem"), [], dict(dims=dims(), parameters={}, processes=procs, flows={"sysenv => use": f, "use => sysenv": g}, stocks={}))
+                it.log.clear()
+                kind, r = run_guarded(lambda: it.call_method(mfa, "check_flows", verbose=verbose, raise_error=raise_error))
+                rep.evaluations += 1
+                inp = {"items": items_kind, "flows": "one with a single entry of -5 (the others 1), one all 2", "verbose": verbose, "raise_error": raise_error}
+                warned = [l.msg for l in it.log if l.level in ("WARNING", "ERROR")]
+                ok, msg = True, ""
+                if raise_error:
+                    if kind != "raise" or not r.isa("ValueError") or "sysenv => use" not in r.msg:
+                        ok, msg = False, f"the negative flow must be reported by a ValueError naming it; the call ended with {kind} {getattr(r, 'exc_name', '')}: {getattr(r, 'msg', r)!s:.120}"
+                else:
+                    if kind != "ok":
+                        ok, msg = False, f"raise_error=False: the negative flow must be reported by a warning, but the call ended with {kind} {getattr(r, 'exc_name', '')}: {getattr(r, 'msg', r)!s:.120}"
+                    elif not any("sysenv => use" in m for m in warned) or any("use => sysenv" in m and "sysenv => use" not in m.replace("use => sysenv", "") for m in warned):
+                        ok, msg = False, f"warnings {warned!s:.200}: exactly the flow 'sysenv => use' is to be flagged"
+                rep.oblige(rid, ok, where="MFASystem.check_flows", what=str(inp), distinct=(rid, "verbose", items_kind, verbose, raise_error))
+                if not ok:
+                    note(fails, rid, "MFASystem.check_flows", inp, msg)
+
+
 EXC_PATTERNS = ["none", "flow-name", "process-name", "substring-of-a-name", "unrelated"]
 
 
@@ -598,6 +654,7 @@ def run(prog, rep):
         prog.method("MFASystem", m)
     fails = {}
     balance_cases(prog, rep, fails)
+    verbose_cases(prog, rep, fails)
     jobs = []
     graphs_v = [0, 2, 3, 5] if rep.tier == "quick" else list(range(len(GRAPHS)))
     for gi in graphs_v:
@@ -638,6 +695,7 @@ def run(prog, rep):
 
 
 MUTANTS = [
+    {"name": "D19-verbose-join-of-integer-items", "path": MOD, "find": '", ".join(str(item) for item in index)', "replace": '", ".join(index)'},
     {"name": "explicit-zero-tolerance-replaced-by-default", "path": MOD, "find": "        if tolerance is None:\n            tolerance = 100 * self._absolute_float_precision",
      "replace": "        tolerance = tolerance or 100 * self._absolute_float_precision"},
     {"name": "all-zero-flows-skipped", "path": MOD, "find": "        for flow in self.flows.values():\n            contributions[flow.from_process.name]",
